@@ -29,7 +29,25 @@ class Ctx:
     def holds(self, rule, instance, where=None, detail=None):
         self._rec('HOLDS', rule, instance, where, detail)
 
+    # rules that are ABOUT state a change introduces (memos, caches, stale values, shared tables, deferred steps): their evidence names new storage by design
+    _STATE_RULES = ('stale', 'memo', 'cache', 'slot', 'lazy-generator', 'late-binding', 'discarded', 'shared', 'state', 'aliased', 'cursor', 'clock', 'set|', 'C18.', 'one-shot')
+
     def violation(self, rule, instance, where=None, detail=None, key=None):
+        # A deviation is claimed only for code that was read.  Evidence that speaks of private storage the pinned tree did not have (self._accounts[...] where the
+        # rule talks about self.portfolios[...]) shows a representation this rule does not relate to the fields it is stated over: left open, not reported.
+        try:
+            new = self.M.new_private_storage()
+        except Exception:
+            new = set()
+        k_ = '%s|%s' % (rule, key or '')
+        if new and not any(s_ in k_ for s_ in self._STATE_RULES):
+            import re
+            text = '%s %s' % (instance, detail if detail is not None else '')
+            hit = sorted(set(re.findall(r'\.(_[A-Za-z]\w*)', text)) & new)
+            if hit:
+                self._rec('UNDECIDED', rule, instance, where, 'the evidence reads storage this tree introduces (%s), which the rule does not relate to the fields it speaks about: %s'
+                          % (', '.join('self.' + h_ for h_ in hit), str(detail)[:160]))
+                return
         self._rec('VIOLATION', rule, instance, where, detail, key)
 
     def undecided(self, rule, instance, where=None, detail=None):
